@@ -89,7 +89,11 @@ class Chk:
         if self.P is not None:
             self.P.eq(label, a, b, kind=kind)
         else:
-            a, b = float(a), float(b)
+            try:
+                a, b = float(a), float(b)
+            except (TypeError, ValueError):
+                self.fails[label] = "non-numeric value %r vs %r" % (a, b)
+                return
             if not abs(a - b) <= 1e-9 * max(1.0, abs(a), abs(b)):
                 self.fails[label] = "%r != %r" % (a, b)
 
@@ -97,6 +101,8 @@ class Chk:
         """a <= b.  expand: the cross-multiplied comparison is expanded into a sum of monomials and decided on its
         *monomial abstraction* (see _abstract); if that is not `unsat` the exact comparison is decided instead."""
         if self.P is not None:
+            if R.of(a) is None or R.of(b) is None:
+                return self.P.holds(label, False, kind=kind)      # a non-numeric output is a failed clause
             cond = R.of(a) <= R.of(b)
             if expand and isinstance(cond, SB):
                 o = self.P.holds(label, _abstract(self, cond.t), kind=kind)
@@ -107,7 +113,11 @@ class Chk:
                 self.P.obls.remove(o)
             self.P.holds(label, cond, kind=kind)
         else:
-            a, b = float(a), float(b)
+            try:
+                a, b = float(a), float(b)
+            except (TypeError, ValueError):
+                self.fails[label] = "non-numeric value %r vs %r" % (a, b)
+                return
             if not a <= b + 1e-9 * max(1.0, abs(a), abs(b)):
                 self.fails[label] = "%r > %r" % (a, b)
 
@@ -412,6 +422,24 @@ def _all_symmetric(cfg):
                if not (s[0] == "z" and cfg["mesh"][2] == 0))
 
 
+def _clean(obs, V):
+    """Observables for the concretised twin: only arrays of proper numbers (a code path that divides by zero yields
+    nan / the engine's 0/0 marker; the clauses on those entries fail on their own, the twin comparison skips them)."""
+    out = {}
+    for k, v in obs.items():
+        a = np.asarray(v)
+        if V.symbolic:
+            ok = all(isinstance(e, (R, int, float, Fraction, np.integer, np.floating)) for e in a.flat)
+        else:
+            try:
+                ok = bool(np.all(np.isfinite(np.asarray(a, dtype=float))))
+            except (TypeError, ValueError):
+                ok = False
+        if ok:
+            out[k] = v
+    return out
+
+
 def _total(v):
     t = 0
     for e in v:
@@ -548,7 +576,7 @@ def sc_fc_kernel(V, P, cfg):
         obs["yc"] = _constant(V, K, m, sig, cfg)
     if kind == "fc-volume":
         K.eq("sum(y)==sum(x)", _total(y), _total(x), "volume")
-    return obs
+    return _clean(obs, V)
 
 
 def sc_fc_radius(V, P, cfg):
@@ -609,7 +637,7 @@ def sc_fc_radius(V, P, cfg):
         obs["yc"] = _bounds_and_constant(V, K, m, sig, y, lo, hi, cfg)
         if _all_symmetric(cfg):
             K.eq("sum(y)==sum(x)", _total(y), _total(x), "volume")
-    return obs
+    return _clean(obs, V)
 
 
 def sc_df(V, P, cfg):
@@ -635,7 +663,7 @@ def sc_df(V, P, cfg):
     _check_y(K, y, yref)
     if nonpad is None:
         obs["yc"] = _bounds_and_constant(V, K, m, sig, y, lo, hi, cfg)
-    return obs
+    return _clean(obs, V)
 
 
 def sc_selftest(V, P, cfg):
